@@ -613,7 +613,8 @@ class Randomizer(RandIF):
                 ConstraintOverrideRollbackVisitor.rollback(fm)
                 # Drop solver variables that an exception inside the solve left
                 # on the fields: they belong to a solver that no longer exists
-                fm.dispose()
+                # (a visitor, since the field graph may contain cycles)
+                fm.accept(RandSetDisposeVisitor())
 
         visited = [] 
         for fm in field_model_l:
